@@ -85,7 +85,17 @@ func (n NodeSet) String() string {
 		return ""
 	}
 
-	return GetCursorString(n[0])
+	// The string-value of a node-set is that of its first node in document
+	// order; a node-set selected by a reverse axis is in reverse order.
+	first := n[0]
+
+	for _, c := range n[1:] {
+		if c.Pos() < first.Pos() {
+			first = c
+		}
+	}
+
+	return GetCursorString(first)
 }
 
 func (n NodeSet) Number() float64 {
